@@ -84,11 +84,7 @@ def analyse_arctan2(ctx, mod, short):
         for sy in (-1, 0, 1):
             case = "x%s0,y%s0" % ("<=>"[sx + 1], "<=>"[sy + 1])
             key = "C03:arctan2:%s.%s" % (short, case)
-            try:
-                kind, got = run_case(sx, sy)
-            except AnalysisError as e:
-                ctx.fail(key, "the sign case %s cannot be evaluated: %s" % (case, e), where)
-                continue
+            kind, got = run_case(sx, sy)            # an unreadable idiom is an ANALYSIS-ERROR, not a verdict
             if sx == 0 and sy == 0:
                 ctx.check(kind == "raise" and got == "ValueError", key, "(0,0) does not raise ValueError", where)
                 continue
@@ -105,11 +101,7 @@ def analyse_arctan2(ctx, mod, short):
             for so in (-1, 1):
                 sx, sy = (st_, so) if nm == "x" else (so, st_)
                 key = "C03:arctan2:%s.snap-%s%s,other%s" % (short, nm, "<>"[st_ > 0], "<>"[so > 0])
-                try:
-                    kind, got = run_case(sx, sy, tiny=nm)
-                except AnalysisError as e:
-                    ctx.fail(key, "the snapped case cannot be evaluated: %s" % e, where)
-                    continue
+                kind, got = run_case(sx, sy, tiny=nm)
                 at0 = exact(0, sy) if nm == "x" else exact(sx, 0)
                 ok = kind == "value" and got is not None and any(scalar(got).equals(w + k * 2 * PI) for w in (at0, exact(sx, sy)) for k in (-1, 0, 1))
                 ctx.check(ok, key, "with |%s| inside the snap band the result is %s, neither the value at %s = 0 (%s) nor the exact formula"
